@@ -72,8 +72,8 @@ def phrases(real):
         restrict=st.just(0), post=st.integers(1, 30),
         # what the host does once the device is at high speed: nothing / suspend then resume / suspend then
         # reset / reset (SE0 through the 200 us window) / confused line after 3 ms / restriction while at HS /
-        # restriction arriving inside the 200 us reset-vs-suspend window
-        then=weighted([(0, 3), (1, 2), (2, 1), (3, 2), (4, 1), (5, 1), (6, 1)]), o1=st.integers(-3, 6), o2=st.integers(-3, 6),
+        # restriction arriving inside the 200 us reset-vs-suspend window / HS suspend+resume then FS suspend+resume
+        then=weighted([(0, 3), (1, 2), (2, 1), (3, 2), (4, 1), (5, 1), (6, 1), (7, 1)]), o1=st.integers(-3, 6), o2=st.integers(-3, 6),
         o3=st.integers(1, 30)))
     if real:
         elems = st.one_of(line, line, line, setsig, busy, hs, hs_good, long_idle, after_hs)
@@ -154,6 +154,15 @@ def expand(case, T):
             elif then in (3, 4):        # reset from high speed / confused line
                 emit(T["ms3"] + ph["o1"], line_state=0)
                 emit(T["us200"] + ph["o2"] + 4, line_state=0 if then == 3 else 2 + (ph["o3"] & 1))
+                emit(ph["o3"], line_state=1)
+            elif then == 7:             # HS suspend + resume, drop to FS by a restriction pulse, FS suspend + resume
+                emit(T["ms3"] + 4, line_state=0)
+                emit(T["us200"] + 8, line_state=1)
+                emit(ph["o3"], line_state=2)
+                emit(ph["o3"], line_state=0)
+                emit(4, fs_only=1)
+                emit(T["ms3"] + ph["o1"] + 4, fs_only=0, line_state=1)
+                emit(ph["o3"], line_state=2)
                 emit(ph["o3"], line_state=1)
             elif then == 6:             # restriction arrives while the device discriminates HS reset from suspend
                 emit(T["ms3"] + ph["o1"] + 4, line_state=0)
